@@ -162,7 +162,8 @@ fn history_case<T: Sc>(rng: &mut Rng, case: u64, out: &mut CaseOut, maxlen: usiz
             break;
         }
         if rng.chance(0.8) {
-            let a = wide_alpha(rng, &g.alpha_true);
+            let fresh = wide_alpha(rng, &g.alpha_true);
+            let a = next_alpha(rng, &alpha, fresh);
             last_alpha = a.iter().map(|v| T::of(*v)).collect();
             prob.set_params(&DVector::from_vec(last_alpha.clone()));
         } else {
@@ -227,12 +228,57 @@ fn fit_case<T: Sc>(rng: &mut Rng, case: u64, out: &mut CaseOut) {
     }
 }
 
+/// rank-deficient states (two exactly equal decay constants, user threshold): the identity must
+/// hold for the *reported* (truncated, minimum-norm) coefficients as well
+fn rankdef_case<T: Sc>(rng: &mut Rng, case: u64, out: &mut CaseOut) {
+    let stream = "rank-deficient";
+    let (g, hist) = gen_rank_deficient(rng, T::IS_F64, 4, 4);
+    let spec = g.spec;
+    let Ok(mut prob) = build_problem::<T>(&spec, &SpyCtl::new()) else {
+        violation(out, stream, case, "valid problem rejected", spec.to_json());
+        return;
+    };
+    let yw = widen(&prob.weighted_data());
+    for step in 0..=hist.len() {
+        let alpha: Vec<f64> = prob.params().iter().map(|v| v.w()).collect();
+        match (prob.coeffs(), prob.residuals()) {
+            (Some(c), Some(r)) => {
+                let r: Vec<f64> = r.iter().map(|v| v.w()).collect();
+                out.count("rank_deficient_states_checked");
+                if !check_identity::<T>(out, stream, case, &spec, &yw, &alpha, &widen(&c), &r, &format!("rank-deficient state {step}")) {
+                    return;
+                }
+            }
+            _ => {
+                out.evals += 1;
+                violation(out, stream, case, "finite rank-deficient basis matrix but no residuals/coefficients", json!({"problem": spec.to_json(), "alpha": alpha}));
+                return;
+            }
+        }
+        if step < hist.len() {
+            prob.set_params(&DVector::from_iterator(hist[step].len(), hist[step].iter().map(|v| T::of(*v))));
+        }
+    }
+    // a complete fit started at the rank-deficient point
+    let fit = prob.fit(&LmCfg::random(rng).make::<T>());
+    check_best_fit(out, stream, case, &spec, &fit);
+    if let (Some(c), Some(r)) = (fit.coeffs(), fit.problem_residuals()) {
+        let alpha: Vec<f64> = fit.problem_params().iter().map(|v| v.w()).collect();
+        let r: Vec<f64> = r.iter().map(|v| v.w()).collect();
+        check_identity::<T>(out, stream, case, &spec, &yw, &alpha, &widen(&c), &r, "after a fit started at a rank-deficient point");
+    }
+    if case < 1 {
+        out.sample(json!({"stream": stream, "problem": spec.to_json()}));
+    }
+}
+
 pub fn run(ctx: &Ctx) {
-    ctx.rule("histories: zoo problems (1..5 columns of different magnitude, six weight classes, f32/f64, all four flavours) driven through 1..10 (quick) / 1..50 (thorough) steps mixing caller-driven set_params (alpha 0.4x..2.5x around the generating values, so residuals are far from zero) and complete fits under random optimizer settings; at every state: residual identity recomputed in f64 from the reported coefficients, the supplied Y and w and the oracle's Phi, params() == last applied alpha (bitwise), weighted_data == W·Y (bitwise, one multiplication per element), after fits best_fit == unweighted Phi(alpha^)·C^ with the observations' shape and nonlinear_parameters == problem params. fit-exchanges: every residual vector handed to the optimizer (ProblemSpy). non-trivial = |r| > 1e-3 |Y_w| and (weights non-constant or S>1); distinct = (problem, alpha) hash");
+    ctx.rule("histories: zoo problems (1..5 columns of different magnitude, six weight classes, f32/f64, all four flavours) driven through 1..10 (quick) / 1..50 (thorough) steps mixing caller-driven set_params (alpha 0.4x..2.5x around the generating values, so residuals are far from zero) and complete fits under random optimizer settings; at every state: residual identity recomputed in f64 from the reported coefficients, the supplied Y and w and the oracle's Phi, params() == last applied alpha (bitwise), weighted_data == W·Y (bitwise, one multiplication per element), after fits best_fit == unweighted Phi(alpha^)·C^ with the observations' shape and nonlinear_parameters == problem params. fit-exchanges: every residual vector handed to the optimizer (ProblemSpy). rank-deficient: problems with two exactly equal decay constants and a user threshold (truncated, minimum-norm coefficients), states and a fit started there. non-trivial = |r| > 1e-3 |Y_w| and (weights non-constant or S>1); distinct = (problem, alpha) hash");
     ctx.assume("oracle Phi from the zoo's closed formulas evaluated in the scalar type under test; tolerance 16·eps·M·(|y_w|+|Phi_w||C|) per element");
     let t = ctx.tier;
     let maxlen = t.pick(10, 50);
     let b = t.pick(15.0, 150.0);
     ctx.run_cases("histories", t.pick(1500, 30000), b, |r, c, o| if c % 3 == 0 { history_case::<f32>(r, c, o, maxlen) } else { history_case::<f64>(r, c, o, maxlen) });
     ctx.run_cases("fit-exchanges", t.pick(500, 15000), b, |r, c, o| if c % 4 == 0 { fit_case::<f32>(r, c, o) } else { fit_case::<f64>(r, c, o) });
+    ctx.run_cases("rank-deficient", t.pick(600, 12000), b, |r, c, o| if c % 3 == 0 { rankdef_case::<f32>(r, c, o) } else { rankdef_case::<f64>(r, c, o) });
 }
